@@ -57,7 +57,7 @@ WINDOW_INV = dict(
     inv=['len(bytecode) == i',
          f'forall(lambda j: implies(0 <= j and j < i, elems(bytecode)[j] == cell(memory, {START} + j, self._binary_fill_value)))'])
 
-contract(ENG, props=['C03'], name='engine', blocks_only=True,
+contract(ENG, props=['C03', 'C16'], name='engine', blocks_only=True,
          blocks={'memmap_line': MEMMAP_BODY, 'window': WINDOW},
          loops={'4.0': MEMMAP_INNER, '5': WINDOW_INV})
 
